@@ -11,10 +11,12 @@ import (
 	"context"
 	"fmt"
 
+	kruiseappsv1alpha1 "github.com/openkruise/kruise-api/apps/v1alpha1"
 	"github.com/openkruise/rollouts/pkg/util"
 	"github.com/openkruise/rollouts/pkg/verifrt"
 	"github.com/openkruise/rollouts/pkg/verifrt/symclient"
 	admissionv1 "k8s.io/api/admission/v1"
+	apps "k8s.io/api/apps/v1"
 	metav1 "k8s.io/apimachinery/pkg/apis/meta/v1"
 	"k8s.io/apimachinery/pkg/apis/meta/v1/unstructured"
 	"k8s.io/apimachinery/pkg/runtime"
@@ -78,5 +80,59 @@ func VerifC08_UnifiedHandleGate() {
 	} else {
 		verifrt.Cover("passed")
 		verifrt.Assert(reached == 0, "C08.unified.gate.othersAreLeftAlone")
+	}
+}
+
+// VerifC08_HandleHandsTheRequestObjectsToTheKindHandler: the admission entry point of the typed kinds (CloneSet,
+// Advanced DaemonSet, Deployment).  Whether an update is a release change is decided by comparing the object as it
+// was with the object as it is to become; the entry point must hand each kind's handler exactly those two — the
+// request's oldObject as "old", the request's object as "new" — and must reach the handler for every UPDATE of a kind
+// it owns that the webhook rules select.
+func VerifC08_HandleHandsTheRequestObjectsToTheKindHandler() {
+	kind := verifrt.IntRange("req.kind", 0, 2)
+	gvks := []metav1.GroupVersionKind{
+		{Group: "apps.kruise.io", Version: "v1alpha1", Kind: "CloneSet"},
+		{Group: "apps.kruise.io", Version: "v1alpha1", Kind: "DaemonSet"},
+		{Group: "apps", Version: "v1", Kind: "Deployment"},
+	}
+	gvk := gvks[kind]
+	doc := func(rev string) string {
+		return fmt.Sprintf(`{"apiVersion":"%s/%s","kind":"%s","metadata":{"namespace":"ns","name":"w","labels":{"rev":"%s"}},"spec":{}}`, gvk.Group, gvk.Version, gvk.Kind, rev)
+	}
+	verifrt.Stub("(*github.com/openkruise/rollouts/pkg/webhook/workload/mutating.WorkloadHandler).checkWorkloadRules", func(h *WorkloadHandler, ctx context.Context, req admission.Request) (bool, error) {
+		return true, nil
+	})
+	var gotNew, gotOld []string
+	verifrt.Stub("(*github.com/openkruise/rollouts/pkg/webhook/workload/mutating.WorkloadHandler).handleCloneSet", func(h *WorkloadHandler, newObj, oldObj *kruiseappsv1alpha1.CloneSet) (bool, error) {
+		gotNew, gotOld = append(gotNew, "CloneSet:"+newObj.Labels["rev"]), append(gotOld, "CloneSet:"+oldObj.Labels["rev"])
+		return false, nil
+	})
+	verifrt.Stub("(*github.com/openkruise/rollouts/pkg/webhook/workload/mutating.WorkloadHandler).handleDaemonSet", func(h *WorkloadHandler, newObj, oldObj *kruiseappsv1alpha1.DaemonSet) (bool, error) {
+		gotNew, gotOld = append(gotNew, "DaemonSet:"+newObj.Labels["rev"]), append(gotOld, "DaemonSet:"+oldObj.Labels["rev"])
+		return false, nil
+	})
+	verifrt.Stub("(*github.com/openkruise/rollouts/pkg/webhook/workload/mutating.WorkloadHandler).handleDeployment", func(h *WorkloadHandler, newObj, oldObj *apps.Deployment) (bool, error) {
+		gotNew, gotOld = append(gotNew, "Deployment:"+newObj.Labels["rev"]), append(gotOld, "Deployment:"+oldObj.Labels["rev"])
+		return false, nil
+	})
+	h := &WorkloadHandler{Client: &symclient.Client{}}
+	if !verifrt.Symbolic() {
+		d, err := admission.NewDecoder(runtime.NewScheme())
+		if err != nil {
+			panic(err)
+		}
+		h.Decoder = d
+	}
+	req := admission.Request{AdmissionRequest: admissionv1.AdmissionRequest{
+		Operation: admissionv1.Update, Kind: gvk,
+		Object:    runtime.RawExtension{Raw: []byte(doc("new"))},
+		OldObject: runtime.RawExtension{Raw: []byte(doc("old"))},
+	}}
+	resp := h.Handle(context.TODO(), req)
+	verifrt.Assert(resp.Allowed, "C08.handle.allowed")
+	verifrt.Assert(len(gotNew) == 1, "C08.handle.theKindsHandlerRunsOnce")
+	if len(gotNew) == 1 {
+		verifrt.Assert(gotNew[0] == gvk.Kind+":new", "C08.handle.newObjectIsTheRequestsObject")
+		verifrt.Assert(gotOld[0] == gvk.Kind+":old", "C08.handle.oldObjectIsTheRequestsOldObject")
 	}
 }
